@@ -8,6 +8,8 @@ use lucid_suggest_core::TextOwn;
 
 pub struct C13 {
     sets: Vec<TitleSet>,
+    /// languages for which the whole e-commerce corpus is searched as one store (limit = |store|)
+    full: Vec<L>,
 }
 
 pub fn title_sets(tier: Tier, f1: (u32, u32), f2: (u32, u32), f4: (u32, u32)) -> Vec<TitleSet> {
@@ -43,7 +45,7 @@ impl C13 {
         for l in LANGS {
             sets.push(TitleSet { name: "very long texts of 120 / 300 corpus words".into(), l, titles: Titles::List(vec![long_text(120, 200), long_text(300, 50)]), nctx: 1, block: 1 });
         }
-        C13 { sets }
+        C13 { sets, full: tier.pick(vec![L::En], LANGS.to_vec()) }
     }
 }
 
@@ -68,9 +70,40 @@ fn gen(_l: L, title: &str, tok: &TextOwn, _cx: &mut Cx) -> Queries {
 
 impl Prop for C13 {
     fn doms(&self) -> Vec<Dom> {
-        doms_of(&self.sets)
+        let mut d = doms_of(&self.sets);
+        for l in &self.full {
+            d.push(Dom::new(format!("{}/the whole e-commerce corpus as one store (3 285 records, limit = |store|)", l.tag()), 3285, 40));
+        }
+        d
     }
     fn run(&self, dom: usize, idx: u64, cx: &mut Cx) {
+        if dom >= self.sets.len() {
+            let l = self.full[dom - self.sets.len()];
+            let r = with_full_store(l, 3285, |st, titles| {
+                let title = titles[idx as usize].clone();
+                let Some(tok) = super::hl::tok_record(l, &title) else { return };
+                for (q, kind, _) in gen(l, &title, &tok, cx) {
+                    cx.eval();
+                    cx.validated();
+                    let res = cx.search(st, &q);
+                    let found = res.as_ref().map(|h| h.iter().any(|x| x.0 == idx as usize)).unwrap_or(false);
+                    if found {
+                        cx.class(kind);
+                        cx.nontrivial();
+                    } else {
+                        let sig = format!("C13:not-returned:{}:full-store", kind);
+                        let seen = res.as_ref().map(|h| h.len()).unwrap_or(0);
+                        cx.fail(&sig, || serde_json::json!({"lang": l.tag(), "store": "all 3 285 e-commerce titles, id = position, limit 3285", "record": idx, "title": title, "query": q, "hits_returned": seen,
+                                                             "panic": res.as_ref().err().map(|p| p.text())}));
+                    }
+                }
+            });
+            if r.is_none() {
+                cx.machinery("C13: the e-commerce corpus store could not be built".into());
+            }
+            cx.state();
+            return;
+        }
         run_returned("C13", &self.sets[dom], idx, cx, &gen);
     }
     fn abort_is_violation(&self) -> bool {
